@@ -37,6 +37,7 @@ fixed("C18","C18/reused-sig/sign-output-invalid/ED25519","dd215bf","SIG.Sign cal
 # ---- C20
 known("C20","C20/not-reflexive/OPT","OPT.isDuplicate is hard-wired to false: an OPT record is never a duplicate of itself or of its copy")
 known("C20","C20/not-reflexive/XPRIV","PrivateRR.isDuplicate is hard-wired to false: a user-registered private record is never a duplicate of itself or of its copy")
+fixed("C20","C20/dedup-count","8d3a818","Dedup returned early when all records were distinct and left them all in the caller's scratch map; a caller reusing the map (the documented purpose of the parameter, see BenchmarkDedup) got the next list's records treated as duplicates of the previous list's: duplicates kept, wrong TTLs, TTLs written into records of the earlier list (also C20/dedup-ttl, C20/dedup-scratch-map-not-empty)")
 fixed("C20","C20/is-true-want-false/AMTRELAY/field","5591374","AMTRELAY records with the discovery bit set and different relays were reported as duplicates (isDuplicate switched on the unmasked type octet)")
 
 # ---- C05
